@@ -1135,6 +1135,87 @@ def structural_guards_(node, stop):
     return structural_guards(node, stop=stop)
 
 
+_FOLDING = {"lower", "upper", "casefold", "strip", "lstrip", "rstrip", "title", "capitalize", "swapcase"}
+_FIXTURE_K = '''
+def replace_existing(container, named_range):
+    new_name = str(named_range.name).lower()
+    for current in container.get_elements("table:named-range"):
+        if str(current.name).lower() == new_name:
+            container.delete(current)
+def indirect(container, name):
+    wanted = name.strip()
+    for item in container.items:
+        key = item.name
+        if key == wanted:
+            return item
+def keyword(value):
+    return str(value).lower() == "true"
+def exact(container, name):
+    return [i for i in container.items if i.name == name]
+'''
+
+
+def _folded_comparisons(fn: ast.FunctionDef):
+    """comparisons of two run-time strings in which one side was case- or blank-folded (inline, or through a local defined once)"""
+    defs: dict[str, list] = {}
+    for a in walk_no_nested(fn):
+        if isinstance(a, ast.Assign) and len(a.targets) == 1 and isinstance(a.targets[0], ast.Name):
+            defs.setdefault(a.targets[0].id, []).append(a.value)
+
+    params = {a.arg for a in fn.args.posonlyargs + fn.args.args + fn.args.kwonlyargs}
+
+    def names_a_name(e):
+        """the folded text is an identifier: an attribute `….name` / `….table_name`, or a parameter called …name"""
+        return any((isinstance(x, ast.Attribute) and x.attr.endswith("name")) or (isinstance(x, ast.Name) and x.id in params and x.id.endswith("name")) for x in ast.walk(e))
+
+    def folded(e):
+        for c in ast.walk(e):
+            if isinstance(c, ast.Call) and isinstance(c.func, ast.Attribute) and c.func.attr in _FOLDING and not c.args and names_a_name(c.func.value):
+                return c
+        if isinstance(e, ast.Name) and len(defs.get(e.id, [])) == 1:
+            for c in ast.walk(defs[e.id][0]):
+                if isinstance(c, ast.Call) and isinstance(c.func, ast.Attribute) and c.func.attr in _FOLDING and not c.args and names_a_name(c.func.value):
+                    return c
+        return None
+
+    out = []
+    for t in walk_no_nested(fn):
+        if isinstance(t, ast.Compare) and len(t.ops) == 1 and isinstance(t.ops[0], (ast.Eq, ast.NotEq, ast.In, ast.NotIn)):
+            sides = [t.left, t.comparators[0]]
+            if any(isinstance(x, ast.Constant) or (isinstance(x, (ast.Tuple, ast.Set, ast.List)) and all(isinstance(e, ast.Constant) for e in x.elts)) for x in sides):
+                continue  # matching a keyword ("true", ("yes", "no")) is not a lookup
+            f_ = folded(sides[0]) or folded(sides[1])
+            if f_ is not None:
+                out.append((t, f_))
+    return out
+
+
+def r14k(ctx):
+    """Two names are the same name only if they are equal as they stand.
+
+    "Lookups by name return exactly the element whose name equals the string given" — and so must the steps that *decide by name*: the
+    "does it exist already?" test before a replacement, the filters of the listings.  `Total` and `total`, `a` and ` a ` are different
+    identifiers in ODF.  A comparison made after lower(), casefold() or strip() treats them as one: storing a range under "TOTAL" deletes the
+    one stored under "Total", and the lookup by the first name returns None from then on.  Today the package folds a string before comparing
+    it only against keyword constants ("true", "false").  Rule (expected count 0, fixture evaluated on every run): no `==`, `!=`, `in`
+    between two run-time strings has a case- or blank-folding call applied to a name (an attribute `….name`, a parameter called …name) on
+    either side, inline or through a local defined once.  Value-type keywords (`cell_type.lower().strip()`) are a closed vocabulary, not identifiers.
+    """
+    repo = ctx.repo
+    ctx.rule("R14k", "run-time strings are compared as they stand (no lower/casefold/strip on a side, except against keyword constants)", floor=500)
+    tree = ast.parse(_FIXTURE_K)
+    got = sorted(fn.name for fn in tree.body if isinstance(fn, ast.FunctionDef) and _folded_comparisons(fn))
+    if got != ["indirect", "replace_existing"]:
+        raise AnalysisError(f"R14k fixture: detector broken: {got}")
+    for f in repo.all_funcs():
+        bad = _folded_comparisons(f.node)
+        ctx.instance("R14k", f"{f.file}:{f.ident}", "no folded comparison", ok=not bad, nontrivial=bool(bad), line=f.node.lineno)
+        for t, c in bad[:1]:
+            ctx.report("R14k", f, t, f"{norm(t, 50)}",
+                       f"{f.ident} compares two run-time strings after `.{c.func.attr}()` (`{norm(t, 60)}`): names that differ only by case or surrounding blanks are taken for the same "
+                       f"identifier — an element stored under one of them is replaced, skipped or returned for the other")
+
+
 def run(ctx):
     r14a(ctx)
     r14c(ctx)
@@ -1146,6 +1227,7 @@ def run(ctx):
     r14h(ctx)
     r14i(ctx)
     r14j(ctx)
+    r14k(ctx)
     # a named range is found under its table name only if the address writer and reader agree on how that name is quoted (rule shared with C19)
     from .c19 import r19b, r19f
     r19b(ctx)
@@ -1158,6 +1240,9 @@ from ..selftest import Seed, unparse_seed  # noqa: E402
 _XQ = "src/odfdo/utils/xpath_query.py"
 _EL = "src/odfdo/element.py"
 SEEDS = [
+    Seed("append_named_range replaces every range whose name matches case-insensitively", "fault", _EL,
+         "        current = named_expressions.get_element(\n            f\"table:named-range[@table:name={xpath_string_literal(named_range.name)}][1]\"  # type:ignore\n        )\n        if current:\n            named_expressions.delete(current)",
+         "        for current in named_expressions.get_elements(\"table:named-range\"):\n            if str(current.name).lower() == str(named_range.name).lower():\n                named_expressions.delete(current)", "R14k"),
     Seed("UserFieldDecl.set_value restores the name only if it tests true", "fault", "src/odfdo/variable.py",
          "        self.set_value_and_type(value=value)\n        self.set_attribute(\"text:name\", name)\n",
          "        self.set_value_and_type(value=value)\n        if name:\n            self.set_attribute(\"text:name\", name)\n", "R14j"),
